@@ -907,8 +907,8 @@ MANIFEST_TEXT.update({
                 design_ref='DESIGN.md section 4 C15', level_note='region extraction for the limit computation; qsort assumed; mark-update chain and liveness not covered', technique='CBMC contracts (dfcc replace) + driver on real cmdline/scrub.c, mechanically extracted region'),
     'C18': dict(level_text='The rule-evaluation order and the pattern classification are decided on the real elem.c for every bounded rule list against an arbitrary glob matcher; selection options and the write frame are not claimed - level other.',
                 design_ref='DESIGN.md section 4 C18', level_note='libc fnmatch assumed deterministic; bounded lists/patterns; state_filter not covered', technique='CBMC drivers on real cmdline/elem.c with fnmatch as uninterpreted truth table'),
-    'C20': dict(level_text='Narrow: reversibility of the two escaping functions every report goes through; one genuine finding recorded (tab/newline unquoted). The report bodies themselves are printf loops over containers and are not claimed.',
-                design_ref='DESIGN.md section 4 C20', level_note='strings <= 5 bytes; POSIX quoting rules transcribed by hand; report bodies not covered', technique='CBMC drivers on real cmdline/support.c esc_tag / esc_shell_multi with spec decoders'),
+    'C20': dict(level_text='Narrow: reversibility of the two escaping functions every report goes through (one genuine finding recorded: tab/newline unquoted) and the bad / unsynced summary loop of status. The other report bodies are printf loops over containers and are not claimed.',
+                design_ref='DESIGN.md section 4 C20', level_note='strings <= 5 bytes; POSIX quoting rules transcribed by hand; report bodies not covered', technique='CBMC drivers on real cmdline/support.c esc_tag / esc_shell_multi with spec decoders; extracted region of cmdline/status.c'),
 })
 for k in ('C15', 'C18', 'C20'):
     NOT_YET.pop(k, None)
